@@ -58,10 +58,11 @@ def findlabels(code, opc):
     offsets = []
     for offset, op, arg in unpack_opargs(code, opc):
         if arg is not None:
+            if op in opc.JREL_OPS:
+                if opc.version_tuple >= (3, 11) and "JUMP_BACKWARD" in opc.opname[op]:
+                    arg = -arg
             arg2 = arg * 2 if opc.version_tuple >= (3, 10) else arg
             if op in opc.JREL_OPS:
-                if opc.version_tuple >= (3, 11) and opc.opname[op] in ("JUMP_BACKWARD", "JUMP_BACKWARD_NO_INTERRUPT"):
-                    arg = -arg
                 jump_offset = offset + 2 + arg2
                 if opc.version_tuple >= (3,13):
                     jump_offset += 2 * _get_cache_size_313(opc.opname[op])
